@@ -69,3 +69,48 @@ def missing_tasks(ctx, tasks, outs, done):
             t.closure = True
             new.append(t)
     return new, unknown
+
+
+INV_LABELS = ("inv", "ok", "xinv", "pal", "valid", "phase", "window", "disarmed", "pla")
+
+
+def _inv_keep(name):
+    import re
+    m = re.search(r"#([a-z-]+):(.*)$", name)
+    if not m:
+        return False
+    kind, rest = m.group(1), m.group(2)
+    return kind == "requires" or (kind == "ensures" and rest in INV_LABELS)
+
+
+def invariant_tasks(ctx, tasks, packages, done_names):
+    """inductive-invariant closure: a property whose lemmas assume a component's representation invariant in every reachable
+    state also discharges that the invariant is preserved by every function of that component that has a contract saying so
+    (the clauses labelled inv/ok/xinv/pal/valid/phase/...), again through the function tasks the properties define"""
+    from .driver import Task
+    reg = registry(ctx)
+    have = {t.name for t in tasks} | set(done_names)
+    new = []
+    # tasks the property already has for functions of these packages keep their invariant clauses too
+    for t in tasks:
+        if getattr(t, "kind", "") == "function" and t.fn and ctx.prog.has_func(t.fn) and t.keep is not None:
+            f = ctx.prog.func(t.fn)
+            if f.pkg and f.pkg.rsplit("/", 1)[-1] in packages:
+                t.keep = (lambda n, _k=t.keep: _k(n) or _inv_keep(n))
+    for fn, variants in sorted(reg.items()):
+        f = ctx.prog.func(fn) if ctx.prog.has_func(fn) else None
+        if f is None or not f.pkg or f.pkg.rsplit("/", 1)[-1] not in packages or fn in SKIP:
+            continue
+        c = ctx.contracts.get(f.name)
+        if c is None or not any((e.label or "") in INV_LABELS for e in c.ensures):
+            continue
+        for name, ts in sorted(variants.items()):
+            if name in have:
+                continue
+            base = ts[0]
+            uk = union_keep(ts)
+            t = Task(name, base.fn, keep=(None if uk is None else (lambda n, _k=uk: _k(n) or _inv_keep(n))), **dict(base.kw))
+            t.closure = True
+            new.append(t)
+            have.add(name)
+    return new
